@@ -30,13 +30,92 @@ Lines ==
     [] Universe = "F"  -> { [t |-> "H", l |-> l, f |-> TRUE] : l \in 1..3 } \cup { [t |-> "L", p |-> p, f |-> TRUE] : p \in Markers(2) }
                           \cup { [t |-> "P", f |-> TRUE], R, P }
 
+(* ---------------- structured fillers (universes "S1", "S2", "S3") ---------------- *)
+\* A filler body is a sequence over the element alphabet
+\*   "N"   an inner construct            "x"   a word          "nl"  a newline
+\*   "nls" newline, "*", blank, word     "nlb" newline, blank, word  (line starts that mean something)
+\*   "bar" the argument separator |
+\* written inside an outer construct o \in {T, A, L}; the inner construct is i \in {T, A, L, E} holding one
+\* word or (ml) a word, a newline and a word, or (Deep) again a body with an innermost construct.
+Wd(a) == [k |-> "TXT", a |-> <<a>>]
+SPt == [k |-> "SP", n |-> 1]
+NLt == [k |-> "NL"]
+Fill(m, args) == [k |-> "FILL", m |-> m, args |-> args]
+HeadArg(m) == CASE m = "T" -> << <<Wd("t")>> >> [] m = "A" -> << <<Wd("1")>> >> [] m = "L" -> << <<Wd("l")>> >>
+                [] m = "E" -> << >>
+\* the external link has one argument: url, blank, text
+Close(m, argsAfterHead) ==
+  IF m = "E" THEN Fill("E", << <<Wd("url"), SPt>> \o argsAfterHead[1] >>) ELSE Fill(m, HeadArg(m) \o argsAfterHead)
+Elems == {"N", "x", "nl", "nls", "nlb", "bar"}
+WordEnd == {"x", "nls", "nlb"}
+ElemPieces(e, inner, star) ==
+  CASE e = "N" -> <<inner>> [] e = "x" -> <<Wd("x")>> [] e = "nl" -> <<NLt>>
+    [] e = "nls" -> <<NLt, [k |-> "LP", p |-> <<star>>], SPt, Wd("y")>>
+    [] e = "nlb" -> <<NLt, SPt, Wd("y")>>
+\* bodies: no word directly after a word (they would be one token); "bar" splits arguments
+BodiesOfLen(n) == { b \in [1..n -> Elems] : \A j \in 1..(n - 1) : ~(b[j] \in WordEnd /\ b[j + 1] = "x") }
+Bodies(lo, hi) == UNION { BodiesOfLen(n) : n \in lo..hi }
+HasN(b) == \E j \in 1..Len(b) : b[j] = "N"
+HasNL(b) == \E j \in 1..Len(b) : b[j] \in {"nl", "nls", "nlb"}
+RECURSIVE ArgsOf(_, _, _, _, _)
+\* split the body at "bar" into arguments (sequences of pieces)
+ArgsOf(b, j, cur, inner, star) ==
+  IF j > Len(b) THEN <<cur>>
+  ELSE IF b[j] = "bar" THEN <<cur>> \o ArgsOf(b, j + 1, <<>>, inner, star)
+  ELSE ArgsOf(b, j + 1, cur \o ElemPieces(b[j], inner, star), inner, star)
+Build(o, b, inner, star) == Close(o, ArgsOf(b, 1, <<>>, inner, star))
+\* inner constructs: one word / a word, a newline, a word
+Inner(i, ml) == Close(i, << IF ml THEN <<Wd("u"), NLt, Wd("v")>> ELSE <<Wd("u")>> >>)
+InnerSet(o) == { Inner(i, ml) : i \in (IF o = "L" THEN {"T", "A"} ELSE {"T", "A", "L"}), ml \in BOOLEAN }
+                \cup (IF o = "L" THEN {} ELSE { Inner("E", FALSE) })
+FillersOver(os, bodies, stars) ==
+  UNION { IF HasN(b) THEN { Build(o, b, inn, st) : inn \in InnerSet(o), st \in stars }
+          ELSE { Build(o, b, Wd("x"), st) : st \in stars } : o \in os, b \in { c \in bodies : HasN(c) \/ HasNL(c) } }
+\* depth 3: the inner construct itself holds a body with an innermost construct
+Deep(o, i, b1, b2, st) == Build(o, b1, Build(i, b2, Inner("T", FALSE), st), st)
+DeepFillers(bodies) ==
+  { Deep(o, i, b1, b2, "*") : o \in {"T", "L"}, i \in {"T", "A"}, b1 \in { c \in bodies : HasN(c) }, b2 \in { c \in bodies : HasN(c) } }
+
+\* representative fillers for the universe that varies the document around them
+Repr == { Build(o, b, Inner(i, FALSE), "*") :
+            o \in {"T", "A", "L"}, i \in {"T"},
+            b \in { <<"x", "nl", "x">>, <<"N", "nl", "x">>, <<"N", "nl", "bar", "x">>, <<"N", "nls">> } }
+
+ReprT == { f \in Repr : f.m = "T" }
+SL(p, f, z) == [t |-> "L", p |-> p, s |-> f, z |-> z]
+IsSLine(l) == "s" \in DOMAIN l
+\* S1: every filler (bodies <= 2 elements, every outer / inner kind), few documents: the filler sits in the second line
+\* S2: few fillers, every document <= 3 lines around them
+\* S3 (thorough): bodies <= 3 elements, depth 3
+SPlain == { H(2), H(3), L(<<"*">>), L(<<"#">>), L(<<"*", "*">>), P, R }
+SFillers ==
+  CASE Universe = "S1" -> FillersOver({"T", "A", "L"}, Bodies(1, 2), {"*"})
+    [] Universe = "S2" -> Repr
+    [] Universe = "S3" -> FillersOver({"T", "A", "L"}, Bodies(3, 3), {"*", "#"}) \cup DeepFillers(Bodies(1, 2))
+    [] OTHER -> {}
+SLinesAt(pos) ==
+  CASE Universe \in {"S1", "S3"} ->
+         (IF pos = 1 THEN { H(2), L(<<"*">>) }
+          ELSE IF pos = 2 THEN { SL(p, f, z) : p \in { <<"*">>, <<"*", "*">> }, f \in SFillers, z \in {FALSE} }
+          ELSE { L(<<"*">>), L(<<"*", "*">>), H(3), P })
+    [] Universe = "S2" ->
+         SPlain \cup { SL(p, f, TRUE) : p \in { <<"*">>, <<"*", "*">> }, f \in SFillers }
+                \cup { SL(<<"#">>, f, FALSE) : f \in SFillers }
+                \cup { [t |-> "H", l |-> 2, s |-> f, z |-> TRUE] : f \in ReprT }
+                \cup { [t |-> "P", s |-> f, z |-> TRUE] : f \in ReprT }
+IsSUniverse == Universe \in {"S1", "S2", "S3"}
+
 VARIABLES doc, pst
 vars == <<doc, pst>>
-Init == doc = <<>> /\ pst = InitState({})
+Init == doc = <<>> /\ pst = InitS({})
 AddLine(l) == /\ Len(doc) < MaxLines
               /\ doc' = Append(doc, l)
-              /\ pst' = Feed(pst, Tokens(l, Len(doc) + 1), 1)
-Next == \E l \in Lines : AddLine(l)
+              /\ pst' = FeedS(pst, Tokens(l, Len(doc) + 1), 1)
+\* structured universes: at most one line with a structured filler per document
+AddSLine(l) == /\ IsSLine(l) => \A j \in 1..Len(doc) : ~IsSLine(doc[j])
+               /\ AddLine(l)
+Next == IF IsSUniverse THEN \E l \in SLinesAt(Len(doc) + 1) : AddSLine(l)
+        ELSE \E l \in Lines : AddLine(l)
 Spec == Init /\ [][Next]_vars
 
 AsIsRelevant == (\E i \in 1..Len(doc) : doc[i].t = "R") /\ (\E i \in 1..Len(doc) : doc[i].t = "H" /\ doc[i].l = 1)
@@ -47,7 +126,8 @@ Case ==
   \E tree \in { Finish(pst).root } :
   \E ref \in { RefRelations(Plain(doc)) } :
   \E treeA \in { IF AsIsRelevant THEN MachineTree(doc, AllDevs) ELSE tree } :
-    LET base == [doc |-> Plain(doc), rel |-> ref, tree |-> tree] IN
+    LET base == IF IsSUniverse THEN [doc |-> Plain(doc), rel |-> ref, sdoc |-> doc]
+                ELSE [doc |-> Plain(doc), rel |-> ref, tree |-> tree] IN
     /\ PrintT(<<"CASE", ToJson(IF treeA # tree
                                  THEN base @@ [asis |-> TreeRelations(treeA, doc, W), treeA |-> treeA]
                                  ELSE base)>>)
@@ -56,4 +136,6 @@ Case ==
 MachineOK == Case
 \* Demo: the as-is machine (hline_fn without LEVEL1 in its stop set) against the model
 AsIsOK == TreeRelations(MachineTree(doc, AllDevs), doc, W) = RefRelations(Plain(doc))
+\* Demo: a machine whose line-start switch is a flag instead of a counter against the model
+FlagOK == TreeRelations(MachineTree(doc, ModelDevs), doc, W) = RefRelations(Plain(doc))
 =============================================================================
